@@ -17,6 +17,7 @@ Apply(w, s) ==
     [] s.a = "UpdateRejected" -> IF s.ack THEN Update(w, s.req) ELSE UpdateRejected(w, s.req)
     [] s.a = "Scrape"  -> Scrape(w, s.h, s.ok, s.kept, s.total)
     [] s.a = "Restart" -> Restart(w)
+    [] s.a = "RestartReloadFails" -> RestartReloadFails(w)
     [] s.a = "Tick"    -> Tick(w)
     [] s.a = "SetHead" -> SetHead(w, s.n)
 
@@ -52,7 +53,7 @@ Walk(id, w, steps, k) ==
            d  == Diff(Proj(w2), s.post) \cup (IF SamplesBad(w, s) THEN {"samples"} ELSE {})
        IN IF d # {}
             THEN {[id |-> id, k |-> k, a |-> s.a, fields |-> d,
-                   newentry |-> (s.a \in {"Update", "UpdateRejected", "Restart"}),
+                   newentry |-> (s.a \in {"Update", "UpdateRejected", "Restart", "RestartReloadFails"}),
                    expected |-> Proj(w2), observed |-> s.post]}
             ELSE Walk(id, w2, steps, k + 1)
 
